@@ -46,12 +46,6 @@ Proof.
     + apply IH. intros o' r' Hin. apply (H o' r'). right. assumption.
 Qed.
 
-Lemma is_nil_true : forall A (l : list A), is_nil l = true -> l = [].
-Proof. intros A [|x l] H; [reflexivity|discriminate]. Qed.
-
-Lemma is_nil_false : forall A (l : list A), is_nil l = false -> l <> [].
-Proof. intros A [|x l] H; [discriminate|discriminate]. Qed.
-
 Section WithCrc.
   Variable crc : list N -> N.
 
@@ -63,7 +57,7 @@ Section WithCrc.
         exists nv r, nm_get (p_map st) k = Some nv /\ nv_off nv <> 0 /\
           find_rec (p_recs st) (nv_off nv * 8) = Some r /\ cookie (a_n r) = s_cookie v /\
           match s_live v with
-          | Some n => a_n r = n /\ a_tomb r = false /\ nv_size nv = Z.of_N (body_size n)
+          | Some n => a_n r = n /\ nv_size nv = Z.of_N (body_size n) /\ 0 < body_size n
           | None => (nv_size nv < 0)%Z
           end
     end.
@@ -80,6 +74,13 @@ Section WithCrc.
     pose proof (len_encode_ge Ver (a_n r)). rewrite Hd, !len_app. lia.
   Qed.
 
+  Lemma newer_true : forall st k, Inv crc st ->
+    match nm_get (p_map st) k with Some nv => nv_off nv * 8 <? len (p_dat st) | None => true end = true.
+  Proof.
+    intros st k HI. destruct (nm_get (p_map st) k) as [nv|] eqn:Eg; [|reflexivity].
+    destruct (bound_offset_lt crc st _ nv HI Eg). lia.
+  Qed.
+
   (* the state after appending record [r] for key [id (a_n r)] with the new binding [nv'] *)
   Lemma sim_after_append : forall st m nrec r nv' v',
     Inv crc st -> sim st (m, nrec) ->
@@ -87,7 +88,7 @@ Section WithCrc.
      exists nv r0, nm_get (p_map st) (id (a_n r)) = Some nv /\ nv_off nv' = nv_off nv /\
                    find_rec (p_recs st) (nv_off nv * 8) = Some r0 /\ cookie (a_n r0) = s_cookie v' /\ s_live v' = None) ->
     (nv_off nv' = len (p_dat st) / 8 -> cookie (a_n r) = s_cookie v' /\
-       match s_live v' with Some n => a_n r = n /\ a_tomb r = false /\ nv_size nv' = Z.of_N (body_size n) | None => False end) ->
+       match s_live v' with Some n => a_n r = n /\ nv_size nv' = Z.of_N (body_size n) /\ 0 < body_size n | None => False end) ->
     (s_live v' = None -> (nv_size nv' < 0)%Z) ->
     forall mp, (forall k, nm_get mp k = if id (a_n r) =? k then Some nv' else nm_get (p_map st) k) ->
     sim (p_append st r mp true) ((id (a_n r), v') :: m, nrec + 1).
@@ -114,21 +115,22 @@ Section WithCrc.
         exists nv, r0. split; [assumption|]. split; [assumption|]. split; [apply find_rec_app_old; assumption|assumption].
   Qed.
 
-  Lemma sim_write : forall st s n, Inv crc st -> sim st s -> wf_any crc (Write n) ->
+  Lemma sim_write : forall st s n, Inv crc st -> sim st s -> wf_op crc (Write n) ->
     sim (p_write st n) (s_step s (Write n)).
   Proof.
-    intros st [m nrec] n HI Hsim [Hok Hck].
+    intros st [m nrec] n HI Hsim [Hok [Hne Hck]].
     pose proof Hsim as [Hn Hs]. specialize (Hs (id n)). unfold sim_key in Hs. cbn [fst] in Hs.
+    pose proof (body_size_pos n Hne) as Hpos.
     destruct (len_dat_ge8 crc st HI) as [H8 Hal].
     (* the effect of an accepted write *)
     assert (Hput : p_unchanged st n = false -> p_cookie_ok st n = true ->
                    sim (p_write st n) (s_put (m, nrec) n)).
-    { intros Hu Hc. unfold p_write. rewrite Hu, Hc. cbn [negb]. rewrite (newer_true crc st (id n) HI).
+    { intros Hu Hc. unfold p_write. rewrite Hu, Hc. cbn [negb]. rewrite (newer_true st (id n) HI).
       unfold s_put. cbn [fst snd].
       apply (sim_after_append st m nrec {| a_n := n; a_tomb := false |}
                {| nv_off := len (p_dat st) / 8; nv_size := Z.of_N (body_size n) |}); try assumption.
       - left. reflexivity.
-      - intros _. cbn [a_n a_tomb s_cookie s_live nv_size]. auto.
+      - intros _. cbn [a_n s_cookie s_live nv_size]. auto.
       - cbn [s_live]. discriminate.
       - intros k. cbn [a_n nm_set nm_get]. reflexivity. }
     unfold s_step. cbn [fst].
@@ -138,22 +140,22 @@ Section WithCrc.
       { unfold p_cookie_ok. rewrite Hg, Hf, Hcook. reflexivity. }
       destruct (s_cookie v =? cookie n) eqn:Ec; cbn [negb].
       + destruct (s_live v) as [n0|] eqn:El.
-        * destruct Hlive as [Hr [Ht Hsz]].
-          assert (Hu : p_unchanged st n = bytes_eqb (data n0) (data n) && negb (is_nil (data n0))).
-          { unfold p_unchanged. rewrite Hg, Hf, Hsz, Hr.
+        * destruct Hlive as [Hr [Hsz Hp0]].
+          assert (Hu : p_unchanged st n = bytes_eqb (data n0) (data n)).
+          { unfold p_unchanged. rewrite Hg, Hf, Hsz, (size_valid_of_N _ Hp0), Hr.
             replace (negb (nv_off nv =? 0)) with true by lia. cbn [andb].
-            destruct (is_nil (data n0)) eqn:En.
-            - apply is_nil_true in En. destruct (body_empty n0 En) as [Hb _]. rewrite Hb, andb_false_r. reflexivity.
-            - apply is_nil_false in En. rewrite (size_valid_of_N _ (body_size_pos n0 En)), andb_true_r.
-              destruct (bytes_eqb (data n0) (data n)) eqn:Eb; [|rewrite andb_false_r; reflexivity].
-              apply bytes_eqb_true in Eb.
-              (* same bytes, same checksum: both are the CRC of the data *)
-              pose proof (find_rec_in _ _ _ Hf) as Hin.
-              destruct (rec_in_dat crc st _ r HI Hin) as [_ [_ [_ [_ [_ [_ [_ Hpay]]]]]]].
-              rewrite Ht, Hr in Hpay.
-              rewrite Hpay, Hck, Eb, N.eqb_refl. replace (cookie n0 =? cookie n) with true; [reflexivity|].
-              rewrite <- Hr, Hcook. lia. }
-          destruct (bytes_eqb (data n0) (data n) && negb (is_nil (data n0))) eqn:Eb.
+            destruct (bytes_eqb (data n0) (data n)) eqn:Eb; [|rewrite andb_false_r; reflexivity].
+            apply bytes_eqb_true in Eb.
+            (* same bytes, same checksum: both are the CRC of the data *)
+            pose proof (find_rec_in _ _ _ Hf) as Hin.
+            destruct (rec_in_dat crc st _ r HI Hin) as [_ [_ [_ [_ [_ [_ [_ Hpay]]]]]]].
+            assert (Ht : a_tomb r = false).
+            { destruct (a_tomb r) eqn:Et; [|reflexivity]. exfalso. rewrite Hr in Hpay.
+              destruct (body_empty n0 Hpay) as [Hb _]. lia. }
+            rewrite Ht, Hr in Hpay. destruct Hpay as [_ Hck0].
+            rewrite Hck0, Hck, Eb, N.eqb_refl. replace (cookie n0 =? cookie n) with true; [reflexivity|].
+            rewrite <- Hr, Hcook. lia. }
+          destruct (bytes_eqb (data n0) (data n)) eqn:Eb.
           { unfold p_write. rewrite Hu. assumption. }
           { apply Hput; [assumption|rewrite Hcok; reflexivity]. }
         * apply Hput; [|rewrite Hcok; reflexivity].
@@ -172,7 +174,7 @@ Section WithCrc.
     intros m k nv k' Hg Hv. unfold nm_delete. rewrite Hg, Hv. cbn [nm_get]. reflexivity.
   Qed.
 
-  Lemma sim_delete : forall st s k c ts, Inv crc st -> sim st s -> wf_any crc (Delete k c ts) ->
+  Lemma sim_delete : forall st s k c ts, Inv crc st -> sim st s -> wf_op crc (Delete k c ts) ->
     sim (p_delete st k c ts) (s_step s (Delete k c ts)).
   Proof.
     intros st [m nrec] k c ts HI Hsim Hwf.
@@ -181,11 +183,7 @@ Section WithCrc.
     destruct (s_get m k) as [v|] eqn:Esg; [|rewrite Hs; assumption].
     destruct Hs as [nv [r [Hg [Hnz [Hf [Hcook Hlive]]]]]]. rewrite Hg.
     destruct (s_live v) as [n0|] eqn:El.
-    - destruct Hlive as [Hr [Ht Hsz]]. rewrite Hsz.
-      destruct (is_nil (data n0)) eqn:En.
-      { apply is_nil_true in En. destruct (body_empty n0 En) as [Hb _]. rewrite Hb. assumption. }
-      apply is_nil_false in En. pose proof (body_size_pos n0 En) as Hp0.
-      rewrite (size_valid_of_N _ Hp0).
+    - destruct Hlive as [Hr [Hsz Hp0]]. rewrite Hsz, (size_valid_of_N _ Hp0).
       replace k with (id (a_n {| a_n := tombstone k c ts; a_tomb := true |})) at 3 5 by reflexivity.
       apply (sim_after_append st m nrec {| a_n := tombstone k c ts; a_tomb := true |}
                {| nv_off := nv_off nv; nv_size := (- nv_size nv)%Z |}); try assumption.
@@ -199,7 +197,7 @@ Section WithCrc.
       assumption.
   Qed.
 
-  Lemma sim_fold : forall h st s, Inv crc st -> sim st s -> Forall (wf_any crc) h ->
+  Lemma sim_fold : forall h st s, Inv crc st -> sim st s -> Forall (wf_op crc) h ->
     sim (fold_left p_step h st) (fold_left s_step h s).
   Proof.
     induction h as [|o h IH]; intros st s HI Hsim Hwf; [assumption|].
@@ -207,74 +205,19 @@ Section WithCrc.
     destruct o as [n|k c ts]; [apply sim_write|apply sim_delete]; assumption.
   Qed.
 
-  Lemma sim_reads : forall st s, sim st s -> forall k, p_read st k = s_read (fst s) k.
+  (* the running volume reads per specification, and the specification counts its records *)
+  Theorem running_reads_spec : forall h, Forall (wf_op crc) h ->
+    snd (s_run h) = len (p_idx (p_run h)) /\ forall k, p_read (p_run h) k = s_read (fst (s_run h)) k.
   Proof.
-    intros st s [_ Hs] k. specialize (Hs k). unfold sim_key in Hs.
-    unfold p_read, s_read. destruct (s_get (fst s) k) as [v|]; [|rewrite Hs; reflexivity].
+    intros h Hwf. destruct (sim_fold h p_init ([], 0) (inv_init crc) sim_init Hwf) as [Hn Hs].
+    split; [exact Hn|]. intros k. specialize (Hs k). unfold sim_key in Hs. fold (p_run h) in Hs. fold (s_run h) in Hs.
+    unfold p_read, s_read. destruct (s_get (fst (s_run h)) k) as [v|]; [|rewrite Hs; reflexivity].
     destruct Hs as [nv [r [Hg [Hnz [Hf [_ Hlive]]]]]]. rewrite Hg.
     replace (nv_off nv =? 0) with false by lia.
     destruct (s_live v) as [n0|].
-    - destruct Hlive as [Hr [Ht Hsz]].
+    - destruct Hlive as [Hr [Hsz Hp0]].
       replace (size_deleted (nv_size nv)) with false by (unfold size_deleted, TombstoneFileSize; lia).
-      destruct (is_nil (data n0)) eqn:En.
-      + apply is_nil_true in En. destruct (body_empty n0 En) as [Hb _].
-        replace (nv_size nv =? 0)%Z with true by lia. reflexivity.
-      + apply is_nil_false in En. pose proof (body_size_pos n0 En).
-        replace (nv_size nv =? 0)%Z with false by lia. rewrite Hf, Hr. reflexivity.
+      replace (nv_size nv =? 0)%Z with false by lia. rewrite Hf, Hr. reflexivity.
     - replace (size_deleted (nv_size nv)) with true by (unfold size_deleted, TombstoneFileSize; lia). reflexivity.
-  Qed.
-
-  (* the running volume reads per specification, and the specification counts its records --
-     for every history, empty payloads included *)
-  Theorem running_reads_spec : forall h, Forall (wf_any crc) h ->
-    snd (s_run h) = len (p_idx (p_run h)) /\ forall k, p_read (p_run h) k = s_read (fst (s_run h)) k.
-  Proof.
-    intros h Hwf. pose proof (sim_fold h p_init ([], 0) (inv_init crc) sim_init Hwf) as Hsim.
-    fold (p_run h) in Hsim. fold (s_run h) in Hsim.
-    split; [exact (proj1 Hsim)|]. apply sim_reads. assumption.
-  Qed.
-
-  (* ... also from any reachable state on: the specification continues with the volume *)
-  Lemma spec_app : forall h1 h', Forall (wf_any crc) (h1 ++ h') ->
-    forall k, p_read (p_run (h1 ++ h')) k = s_read (fst (s_run (h1 ++ h'))) k.
-  Proof. intros h1 h' Hwf. apply (running_reads_spec _ Hwf). Qed.
-
-  (* a history without empty payloads never binds a key to size 0 *)
-  Lemma no_empty_live : forall h, Forall (wf_op crc) h -> forall k, empty_live (p_run h) k = false.
-  Proof.
-    intros h Hwf.
-    assert (Hgen : forall h st s, Inv crc st -> sim st s -> Forall (wf_op crc) h ->
-              (forall k v n0, s_get (fst s) k = Some v -> s_live v = Some n0 -> data n0 <> []) ->
-              forall k v n0, s_get (fst (fold_left s_step h s)) k = Some v -> s_live v = Some n0 -> data n0 <> []).
-    { clear h Hwf. induction h as [|o h IH]; intros st s HI Hsim Hwf Hne; [exact Hne|].
-      inversion Hwf as [|? ? Ho Hh]; subst. cbn [fold_left].
-      apply (IH (p_step st o) (s_step s o)); [apply inv_step; [assumption|apply wf_op_any; assumption]| |assumption|].
-      - destruct o as [n|k c ts]; [apply sim_write|apply sim_delete]; try assumption; apply wf_op_any; assumption.
-      - intros k v n0 Hg Hl. destruct s as [m nrec]. destruct o as [n|k0 c ts]; cbn [s_step fst snd] in Hg.
-        + destruct Ho as [_ [Hn _]].
-          assert (Hp : forall k v n0, s_get (fst (s_put (m, nrec) n)) k = Some v -> s_live v = Some n0 -> data n0 <> []).
-          { intros k' v' n' Hg' Hl'. unfold s_put in Hg'. cbn [fst s_get] in Hg'.
-            destruct (id n =? k'); [inversion Hg'; subst v'; cbn [s_live] in Hl'; inversion Hl'; subst; assumption|].
-            eapply Hne; eauto. }
-          destruct (s_get m (id n)) as [v0|]; [|eapply Hp; eauto].
-          destruct (negb (s_cookie v0 =? cookie n)); [eapply Hne; eauto|].
-          destruct (s_live v0) as [n1|]; [|eapply Hp; eauto].
-          destruct (bytes_eqb (data n1) (data n) && negb (is_nil (data n1))); [eapply Hne; eauto|eapply Hp; eauto].
-        + destruct (s_get m k0) as [v0|]; [|eapply Hne; eauto].
-          destruct (s_live v0) as [n1|]; [|eapply Hne; eauto].
-          destruct (is_nil (data n1)); [eapply Hne; eauto|].
-          cbn [fst s_get] in Hg. destruct (k0 =? k); [inversion Hg; subst v; cbn [s_live] in Hl; discriminate|].
-          eapply Hne; eauto. }
-    intros k. pose proof (sim_fold h p_init ([], 0) (inv_init crc) sim_init (wf_ops_any crc h Hwf)) as Hsim.
-    fold (p_run h) in Hsim. fold (s_run h) in Hsim.
-    destruct Hsim as [_ Hs]. specialize (Hs k). unfold sim_key in Hs.
-    unfold empty_live, empty_bound.
-    destruct (s_get (fst (s_run h)) k) as [v|] eqn:Eg; [|rewrite Hs; reflexivity].
-    destruct Hs as [nv [r [Hg [_ [_ [_ Hlive]]]]]]. rewrite Hg.
-    destruct (s_live v) as [n0|] eqn:El; [|lia].
-    destruct Hlive as [_ [_ Hsz]].
-    assert (Hne : data n0 <> []).
-    { apply (Hgen h p_init ([], 0) (inv_init crc) sim_init Hwf (fun k v n0 H => ltac:(discriminate H)) k v n0 Eg El). }
-    pose proof (body_size_pos n0 Hne). lia.
   Qed.
 End WithCrc.
